@@ -168,8 +168,16 @@ func (c *clsGen) privUse(r, n string, mode string) string {
 }
 
 // privCall: expressions over a private method R.#N.
-func (c *clsGen) privCall(r, n string) string {
+func (c *clsGen) privCall(r, n string, plainBody bool) string {
 	f := r + ".#" + n
+	if !plainBody && c.n("privcallsimple", 4) > 0 {
+		// a body that uses super / other members is only called with a proper receiver (`super.y = v`
+		// with an undefined receiver throws natively, the lowered __superSet does not: too exotic to list)
+		return c.pick("privcallrecv", f+"(1)", f+"?.(2)", r+"?.#"+n+"(3)", "(() => "+f+"(6))()", f+"(..."+c.probe("[7, 8]")+")")
+	}
+	if !plainBody {
+		return f + "(1)"
+	}
 	alts := []string{
 		f + "(1)",
 		f + "?.(2)",
@@ -343,8 +351,10 @@ func (c *clsGen) feature() {
 	case 2, 3: // private method
 		n := c.fresh("m")
 		body := "return [i, who(this), arguments.length];"
+		plainBody := true
 		if c.chance("privbody", 30) {
 			body = "return [" + c.ctxExpr(static) + ", arguments.length];"
+			plainBody = false
 		}
 		mk := ""
 		switch c.n("privmethodkind", 5) {
@@ -364,7 +374,7 @@ func (c *clsGen) feature() {
 			c.tag("member:private-method")
 		}
 		for k := 0; k <= c.n("nuses", 2); k++ {
-			e := c.privCall(recv(), n)
+			e := c.privCall(recv(), n, plainBody)
 			if mk == "*" {
 				e = "[..." + recv() + ".#" + n + "()]"
 			}
